@@ -345,93 +345,100 @@ def _policy_table(policy, states):
     return {s: dict(policy.action_dist(s).items()) for s in states}
 
 
-def c_laostar(prob, par, seed):
+def c_laostar(prob, par, seed, obj=None):
     from msdm.algorithms import LAOStar
     mdp = problem(prob)
-    r = LAOStar(heuristic=lambda s: 0.0, seed=seed,
-                randomize_action_order=par.get("rao", True),
-                randomize_nextstate_order=par.get("rno", True)).plan_on(mdp)
+    obj = obj or LAOStar(heuristic=lambda s: 0.0, seed=seed,
+                         randomize_action_order=par.get("rao", True),
+                         randomize_nextstate_order=par.get("rno", True))
+    r = obj.plan_on(mdp)
     states = list(r.explicit_graph.states_to_nodes.keys())
     return {"main": {"V": r.state_value_map, "v0": r.initial_value, "converged": r.converged,
                      "policy": _policy_table(r.policy, states)},
             "aux": {"iterations": r.iterations, "expanded": r.explicit_graph.states_by_expandedorder(),
-                    "visited": r.explicit_graph.states_by_visitorder()}}
+                    "visited": r.explicit_graph.states_by_visitorder()}, "obj": obj}
 
 
-def c_lrtdp(prob, par, seed):
+def c_lrtdp(prob, par, seed, obj=None):
     from msdm.algorithms import LRTDP
     mdp = problem(prob)
-    r = LRTDP(heuristic=lambda s: 0.0, seed=seed, randomize_action_order=par.get("rao", True),
-              bellman_error_margin=1e-3).plan_on(mdp)
+    obj = obj or LRTDP(heuristic=lambda s: 0.0, seed=seed, randomize_action_order=par.get("rao", True),
+                       bellman_error_margin=1e-3)
+    r = obj.plan_on(mdp)
     states = list(r.V.keys())
     return {"main": {"V": dict(r.V), "v0": r.initial_value, "policy": _policy_table(r.policy, states),
                      "solved": {s for s in states if r.solved[s]}, "seed": r.seed,
                      "Q": {s: dict(q) for s, q in r.Q.items()}},
-            "aux": {"action_orders": {s: list(o) for s, o in r.action_orders.items()}}}
+            "aux": {"action_orders": {s: list(o) for s, o in r.action_orders.items()}}, "obj": obj}
 
 
-def c_astar(prob, par, seed):
+def c_astar(prob, par, seed, obj=None):
     from msdm.algorithms import AStarSearch
     mdp = problem(prob)
-    r = AStarSearch(seed=seed, randomize_action_order=par.get("rao", True),
-                    tie_breaking_strategy=par.get("tie", "random")).plan_on(mdp)
+    obj = obj or AStarSearch(seed=seed, randomize_action_order=par.get("rao", True),
+                             tie_breaking_strategy=par.get("tie", "random"))
+    r = obj.plan_on(mdp)
     return {"main": {"path": list(r.path), "path_value": r.path_value,
                      "policy": _policy_table(r.policy, list(r.path)[:-1])},
-            "aux": {"visited": set(r.visited)}}
+            "aux": {"visited": set(r.visited)}, "obj": obj}
 
 
-def c_bfs(prob, par, seed):
+def c_bfs(prob, par, seed, obj=None):
     from msdm.algorithms import BreadthFirstSearch
     mdp = problem(prob)
-    r = BreadthFirstSearch(seed=seed, randomize_action_order=True).plan_on(mdp)
+    obj = obj or BreadthFirstSearch(seed=seed, randomize_action_order=True)
+    r = obj.plan_on(mdp)
     return {"main": {"path": list(r.path), "policy": _policy_table(r.policy, list(r.path)[:-1])},
-            "aux": {"visited": set(r.visited)}}
+            "aux": {"visited": set(r.visited)}, "obj": obj}
 
 
-def c_td(prob, par, seed):
+def c_td(prob, par, seed, obj=None):
     import msdm.algorithms as alg
     mdp = problem(prob)
     cls = getattr(alg, par["cls"])
-    r = cls(episodes=par.get("episodes", 25), step_size=0.2, rand_choose=par.get("eps", 0.2),
-            softmax_temp=par.get("temp", 0.0), initial_q=0.0, seed=seed).train_on(mdp)
+    obj = obj or cls(episodes=par.get("episodes", 25), step_size=0.2, rand_choose=par.get("eps", 0.2),
+                     softmax_temp=par.get("temp", 0.0), initial_q=0.0, seed=seed)
+    r = obj.train_on(mdp)
     states = list(r.q_values.keys())
     return {"main": {"q": {s: dict(q) for s, q in r.q_values.items()},
                      "policy": _policy_table(r.policy, states),
                      "episode_rewards": list(r.event_listener_results.episode_rewards)},
-            "aux": {}}
+            "aux": {}, "obj": obj}
 
 
-def c_rmax(prob, par, seed):
+def c_rmax(prob, par, seed, obj=None):
     import numpy as np
     from msdm.algorithms import RMAX
     mdp = problem(prob)
-    r = RMAX(episodes=par.get("episodes", 12), rmax=float(np.max(mdp.reward_matrix)),
-             num_transition_samples=par.get("m", 2), seed=seed).train_on(mdp)
+    obj = obj or RMAX(episodes=par.get("episodes", 12), rmax=float(np.max(mdp.reward_matrix)),
+                      num_transition_samples=par.get("m", 2), seed=seed)
+    r = obj.train_on(mdp)
     states = list(r.q_values.keys())
     return {"main": {"q": {s: dict(q) for s, q in r.q_values.items()},
                      "policy": _policy_table(r.policy, states),
                      "episode_rewards": list(r.event_listener_results.episode_rewards)},
-            "aux": {}}
+            "aux": {}, "obj": obj}
 
 
-def c_bpi(prob, par, seed):
+def c_bpi(prob, par, seed, obj=None):
     from msdm.algorithms.fscboundedpolicyiteration import FSCBoundedPolicyIteration
     pomdp = problem(prob)
-    r = FSCBoundedPolicyIteration(controller_state_count=2, iterations=par.get("iterations", 2),
-                                  seed=seed).train_on(pomdp)
+    obj = obj or FSCBoundedPolicyIteration(controller_state_count=2, iterations=par.get("iterations", 2), seed=seed)
+    r = obj.train_on(pomdp)
     return {"main": {"action": r.policy.action_strategy, "obs": r.policy.observation_strategy,
                      "init": r.policy.initial_state_dist, "value": r.value, "V": r.state_controller_value},
-            "aux": {"converged": r.converged}}
+            "aux": {"converged": r.converged}, "obj": obj}
 
 
-def c_ga(prob, par, seed):
+def c_ga(prob, par, seed, obj=None):
     from msdm.algorithms import FSCGradientAscent
     pomdp = problem(prob)
-    r = FSCGradientAscent(controller_state_count=2, iterations=par.get("iterations", 5),
-                          learning_rate=0.1, seed=seed).train_on(pomdp)
+    obj = obj or FSCGradientAscent(controller_state_count=2, iterations=par.get("iterations", 5),
+                                   learning_rate=0.1, seed=seed)
+    r = obj.train_on(pomdp)
     return {"main": {"action": r.policy.action_strategy, "obs": r.policy.observation_strategy,
                      "init": r.policy.initial_state_dist, "value": r.value.expected_value},
-            "aux": {}}
+            "aux": {}, "obj": obj}
 
 
 def _options(prob, kind):
@@ -491,16 +498,19 @@ def _options(prob, kind):
     return mdp, s0, opts
 
 
-def c_semimdp(prob, par, seed):
+def c_semimdp(prob, par, seed, obj=None):
     from msdm.core.semimdp.semimdp import SemiMarkovDecisionProcess
-    mdp, s0, opts = _options(prob, par["options"])
-    smdp = SemiMarkovDecisionProcess(mdp=mdp, options=opts, n_option_simulations=par.get("n", 6), seed=seed)
+    if obj is None:
+        mdp, s0, opts = _options(prob, par["options"])
+        smdp = SemiMarkovDecisionProcess(mdp=mdp, options=opts, n_option_simulations=par.get("n", 6), seed=seed)
+        obj = (smdp, s0, opts)
+    smdp, s0, opts = obj        # reuse: the same semi-MDP and option objects are queried again
     out = {}
     for i, o in enumerate(opts):
         d = smdp.next_state_transit_time_reward_dist(s0, o)
         out[i] = {"nstr": dict(d.items()), "ns": dict(smdp.next_state_dist(s0, o).items()),
                   "ecr": smdp.expected_cumulative_reward(s0, o)}
-    return {"main": out, "aux": {}}
+    return {"main": out, "aux": {}, "obj": obj}
 
 
 def c_implicit(prob, par, seed):
@@ -589,19 +599,24 @@ def c_pomdp_rollout(prob, par, seed):
 
 COMPONENTS = {
     # component: (function, call site named in signatures, seeding idiom in spec/C13_Seeding.tla)
-    "LAOStar": (c_laostar, "LAOStar.plan_on", "private"),
-    "LRTDP": (c_lrtdp, "LRTDP.plan_on", "private"),
-    "AStarSearch": (c_astar, "AStarSearch.plan_on", "private"),
-    "BreadthFirstSearch": (c_bfs, "BreadthFirstSearch.plan_on", "private"),
-    "TD": (c_td, "TemporalDifferenceLearning.train_on", "private"),
-    "RMAX": (c_rmax, "RMAX.train_on", "private"),
-    "BPI": (c_bpi, "FSCBoundedPolicyIteration", "private"),
-    "GA": (c_ga, "FSCGradientAscent", "private"),
-    "SemiMDP": (c_semimdp, "semimdp.obj_seed", "stable_obj_seed"),
-    "Implicit": (c_implicit, "ImplicitDistribution", "private"),
-    "Rollout": (c_rollout, "Policy.run_on", "threaded"),
-    "Evaluate": (c_evaluate, "Policy.evaluate_on", "threaded"),
-    "POMDPRollout": (c_pomdp_rollout, "POMDPPolicy.run_on", "threaded"),
+    # A function that returns "obj" (the planner / learner / semi-MDP object, which re-seeds from its
+    # seed parameter on every call in the code as it stands) is also run a second time on that same
+    # object (reuse=1).  Not reused, because they continue a stream by design: ImplicitDistribution
+    # (its cached _rng is a stream), roll-outs and evaluate_on (the caller owns the generator passed
+    # as rng=; "equally seeded generator" means a fresh one).
+    "LAOStar": (c_laostar, "LAOStar.plan_on", "private", True),
+    "LRTDP": (c_lrtdp, "LRTDP.plan_on", "private", True),
+    "AStarSearch": (c_astar, "AStarSearch.plan_on", "private", True),
+    "BreadthFirstSearch": (c_bfs, "BreadthFirstSearch.plan_on", "private", True),
+    "TD": (c_td, "TemporalDifferenceLearning.train_on", "private", True),
+    "RMAX": (c_rmax, "RMAX.train_on", "private", True),
+    "BPI": (c_bpi, "FSCBoundedPolicyIteration", "private", True),
+    "GA": (c_ga, "FSCGradientAscent", "private", True),
+    "SemiMDP": (c_semimdp, "semimdp.obj_seed", "stable_obj_seed", True),
+    "Implicit": (c_implicit, "ImplicitDistribution", "private", False),
+    "Rollout": (c_rollout, "Policy.run_on", "threaded", False),
+    "Evaluate": (c_evaluate, "Policy.evaluate_on", "threaded", False),
+    "POMDPRollout": (c_pomdp_rollout, "POMDPPolicy.run_on", "threaded", False),
 }
 
 
@@ -613,21 +628,31 @@ def run_case(case, seeds, perts):
     fn = COMPONENTS[case["comp"]][0]
     evs = []
     t0 = time.time()
+    reusable = COMPONENTS[case["comp"]][3]
     for seed in seeds:
-        for slot, p in enumerate(perts):
+        obj = None
+        # fresh object per slot; then (reuse=1) the object of the last slot is called once more
+        # under the prior state of the globals that its first call started from
+        for slot, p in list(enumerate(perts)) + ([(len(perts), perts[-1])] if reusable else []):
+            reuse = 1 if slot == len(perts) else 0
             perturb(p)
             evs.append({"k": "P", "pert": p, "g": gstate()})
             pre = gstate()
             err = ""
             try:
-                r = fn(case["prob"], case["par"], seed)
+                # (if the fresh run raised there is no object to reuse: the run is repeated fresh)
+                r = fn(case["prob"], case["par"], seed, obj=obj) if reuse and obj is not None \
+                    else fn(case["prob"], case["par"], seed)
+                obj = r.get("obj")
                 d, c, a = dig(r["main"]), dig(r["main"], coarse=True), dig(r["aux"])
             except Exception as e:                      # noqa: BLE001 - the exception type is the result
                 d, c, a = "error:" + type(e).__name__, "error", ""
                 err = f"{type(e).__name__}: {e}"[:200]
+                if not reuse:
+                    obj = None
             post = gstate()
-            evs.append({"k": "R", "seed": str(seed), "pert": p, "slot": slot, "pre": pre, "post": post,
-                        "dig": d, "cdig": c, "adig": a, "err": err})
+            evs.append({"k": "R", "seed": str(seed), "pert": p, "slot": slot, "reuse": reuse, "pre": pre,
+                        "post": post, "dig": d, "cdig": c, "adig": a, "err": err})
     try:
         lo = list_order(case["prob"])
     except Exception:                                   # noqa: BLE001
@@ -656,7 +681,7 @@ def case_id(c):
 
 def case_meta(c):
     """(site, idiom, lk, shape, multi) of a case; lk / multi are the inputs of Breaks in the spec."""
-    _, site, idiom = COMPONENTS[c["comp"]]
+    _, site, idiom, _ = COMPONENTS[c["comp"]]
     m = meta(c["prob"])
     lk, shape, multi = m["lk"], m["shape"], m["multi"]
     if c["comp"] == "SemiMDP":
@@ -794,7 +819,7 @@ def merge(plan, outs):
                     e["proc"] = pi + 1
                     evs.append(e)
         traces.append({"case": case_id(case), "comp": case["comp"], "idiom": idiom, "lk": lk, "multi": multi,
-                       "seeds": seeds, "perts": plan["perts"],
+                       "seeds": seeds, "perts": plan["perts"], "reuse": 1 if COMPONENTS[case["comp"]][3] else 0,
                        "procs": [{"hs": str(o["hashseed"]), "lo": o["cases"][ci]["lo"]} for o in outs],
                        "ev": evs})
     return traces
@@ -809,11 +834,13 @@ INVARIANT TraceWellFormed
 """
 
 CLAUSE_NAME = {"rerun": "not-repeatable", "global": "depends-on-global-generators",
-               "hash": "depends-on-hash-seed"}
+               "hash": "depends-on-hash-seed", "reuse": "differs-on-object-reuse"}
 CLAUSE_TEXT = {"rerun": "two runs in the same process under the same prior state of the global generators returned different results",
                "global": "the result changes with the prior state of the process-global generators",
                "hash": "the result differs between processes started with different PYTHONHASHSEED",
-               "isolated": "the seeded run changed the state of a process-global generator"}
+               "isolated": "the seeded run changed the state of a process-global generator",
+               "reuse": "calling the same planner / learner / semi-MDP object a second time (same problem, same prior state "
+                        "of the global generators) returned a different result than its first call"}
 
 
 def validate(ctx, plan, traces, tag, *, strict=True):
@@ -910,10 +937,11 @@ def judge(ctx, plan, traces, summaries):
 # MC of the seeding idioms
 # ---------------------------------------------------------------------------------------------
 IDIOMS = ["private", "threaded", "stable_obj_seed", "seed_or_draw_numpy", "seed_or_draw_torch", "unthreaded_first_draw",
-          "obj_hash", "obj_identity"]
+          "obj_hash", "obj_identity", "generator_in_init"]
+REUSE_IDIOMS = ["private", "threaded", "stable_obj_seed", "generator_in_init"]
 MC_CFG = "INIT Init\nNEXT Next\nCHECK_DEADLOCK FALSE\nINVARIANT Emit\nINVARIANT PredictionSound\n"
 PROP_CFG = ("INIT Init\nNEXT Next\nCHECK_DEADLOCK FALSE\nINVARIANT Isolated\nINVARIANT Repeatable\n"
-            "INVARIANT GlobalIndependent\nINVARIANT HashIndependent\n")
+            "INVARIANT GlobalIndependent\nINVARIANT HashIndependent\nINVARIANT Reusable\n")
 
 
 def py_idiom_table():
@@ -923,7 +951,7 @@ def py_idiom_table():
 
     def execute(idiom, seed, lk, multi, proc, pre, addr):
         post = dict(pre)
-        if idiom in ("private", "threaded"):
+        if idiom in ("private", "threaded", "generator_in_init"):
             return ("seed", seed), post
         if idiom == "stable_obj_seed":
             return ("derived from text", seed), post
@@ -965,6 +993,12 @@ def py_idiom_table():
                                 fails.add("global")
                             elif pre1 == pre2:
                                 fails.add("hash")
+                    if idiom in REUSE_IDIOMS:       # second call on the object of a fresh run
+                        for p1, pre1, a1 in runs:
+                            first, _ = execute(idiom, seed, lk, multi, p1, pre1, a1)
+                            second = first + ("stream continued",) if idiom == "generator_in_init" else first
+                            if second != first:
+                                fails.add("reuse")
                     key = (idiom, 1 if seed == 0 else 0, lk, multi)
                     table[key] = table.get(key, set()) | fails
     return table
@@ -990,7 +1024,8 @@ def model_check(ctx):
     runs = [(res, "mc: all seeding idioms x seeds x label kinds x initial supports x 2 processes x prior global states")]
     cex = {}
     expected = {"good": None, "seed_or_draw_numpy": "Isolated", "seed_or_draw_torch": "Isolated",
-                "unthreaded_first_draw": "Isolated", "obj_hash": "HashIndependent", "obj_identity": "Repeatable"}
+                "unthreaded_first_draw": "Isolated", "obj_hash": "HashIndependent", "obj_identity": "Repeatable",
+                "generator_in_init": "Reusable"}
     from concurrent.futures import ThreadPoolExecutor
     with ThreadPoolExecutor(max_workers=3) as ex:
         futs = {sel: ex.submit(run_tlc, ctx.workdir / f"mc-{sel}", MODULE, PROP_CFG,
@@ -1017,7 +1052,7 @@ def check_predictions(table, summaries, traces):
     for i, tr in enumerate(traces):
         for s, pred in summaries[i]["predicted"].items():
             raw = table.get((tr["idiom"], 1 if s == "0" else 0, tr["lk"], tr["multi"]), set())
-            masked = raw - {"global", "hash"} if "rerun" in raw else raw
+            masked = raw - {"global", "hash", "reuse"} if "rerun" in raw else raw
             if set(pred) != masked:
                 raise TLCFailure(f"Breaks disagrees with the model-checked table on {tr['case']} seed {s}: "
                                  f"{sorted(pred)} vs {sorted(masked)}")
@@ -1073,7 +1108,7 @@ def replay(ctx, case):
 def selftest(ctx):
     """Binding demonstration on recorded logs of sound components: (1) one digest returned by the
     real code is altered, (2) one recorded generator state after a run is altered, (3) one Run
-    event is dropped.  Each must be reported for exactly that case; the untouched logs must be clean."""
+    event is dropped, (4) the digest of a second call on the same planner object is altered.  Each must be reported for exactly that case; the untouched logs must be clean."""
     import copy
     cases = [C("LRTDP", "mdp_str"), C("TD", "mdp_str", cls="QLearning"), C("Rollout", "mdp_str"),
              C("AStarSearch", "graph_str"), C("Implicit", "-")]
@@ -1083,22 +1118,25 @@ def selftest(ctx):
     clean = all(not any(v for v in s["observed"].values()) and s["covered"] and not s["malformed"] for s in base.values())
     bad = copy.deepcopy(traces)
     runs = lambda t: [e for e in t["ev"] if e["k"] == "R"]
-    runs(bad[0])[-1].update(dig="0" * 16, cdig="1" * 16)    # (1) a different result in the last process
-    r = runs(bad[1])[3]
+    fresh = lambda t: [e for e in runs(t) if not e["reuse"]]
+    fresh(bad[0])[-1].update(dig="0" * 16, cdig="1" * 16)   # (1) a different result in the last process
+    r = fresh(bad[1])[3]
     r["post"] = dict(r["post"], numpy="f" * 12)             # (2) numpy's global generator moved during a run
     idx = next(i for i, e in enumerate(bad[2]["ev"]) if e["k"] == "R" and e["proc"] == 2)
     del bad[2]["ev"][idx]                                   # (3) dropped event
+    next(e for e in runs(bad[3]) if e["reuse"]).update(dig="2" * 16, cdig="3" * 16)   # (4) second call on the same object differs
     summ = validate(ctx, plan, bad, "st-bad")
     ok1 = any("hash" in v or "rerun" in v or "global" in v for v in summ[0]["observed"].values())
     ok2 = any("isolated" in v for v in summ[1]["observed"].values()) or bool(summ[1]["malformed"])
     ok3 = not summ[2]["covered"]
-    untouched = all(not any(v for v in summ[i]["observed"].values()) and summ[i]["covered"] for i in (3, 4))
+    ok4 = any("reuse" in v for v in summ[3]["observed"].values())
+    untouched = all(not any(v for v in summ[i]["observed"].values()) and summ[i]["covered"] for i in (4,))
     before = len(ctx.violations)
     judge(ctx, plan, bad, summ)
     reported = len(ctx.violations) - before
-    print(f"  (selftest) baseline clean={clean} digest-corruption={ok1} state-corruption={ok2} dropped-event={ok3} "
+    print(f"  (selftest) baseline clean={clean} digest-corruption={ok1} state-corruption={ok2} dropped-event={ok3} reuse-corruption={ok4} "
           f"untouched-clean={untouched} reported={reported}", flush=True)
-    return clean and ok1 and ok2 and ok3 and untouched and reported >= 3
+    return clean and ok1 and ok2 and ok3 and ok4 and untouched and reported >= 4
 
 
 if __name__ == "__main__":
